@@ -51,22 +51,26 @@ def split_waterfall_generator(waterfall_fn, fchans, tchans=None, f_shift=None):
         raise ValueError('tchans value must be less than the total number of \
                           time samples in the observation')
 
-    # Note that df is negative!
-    f_start, f_stop = fch1, fch1 + fchans * df
+    # Number of windows of fchans channels, shifted by f_shift, that fit in the file. 
+    # Counting channels (rather than accumulating frequencies and comparing them with 
+    # the band edge) keeps the last window when the channels divide evenly
+    if fchans > nchans:
+        num_splits = 0
+    else:
+        num_splits = (nchans - fchans) // f_shift + 1
 
-    # Iterates down frequencies, starting from highest
-    while np.abs(f_stop - fch1) <= np.abs(nchans * df):
+    # Iterates through the file from the first channel; note that df is negative 
+    # for the usual descending frequency order
+    for i in range(num_splits):
+        f_start = fch1 + i * f_shift * df
+        f_stop = f_start + fchans * df
         fmin, fmax = np.sort([f_start, f_stop])
         waterfall = Waterfall(waterfall_fn,
                               f_start=fmin,
                               f_stop=fmax,
                               t_start=0,
                               t_stop=tchans)
-
         yield waterfall
-
-        f_start += f_shift * df
-        f_stop += f_shift * df
 
 
 def split_fil(waterfall_fn, output_dir, fchans, tchans=None, f_shift=None):
